@@ -605,6 +605,8 @@ func (c *VirtualTable) Update(ctx context.Context, key interface{}, values map[i
 	if !ok || old.Deleted {
 		return nil
 	}
+	// an UPDATE leaves the row's insert/delete time alone
+	new.DeleteUpdateOffset = durationpb.New(ot.Add(old.DeleteUpdateOffset.AsDuration()).Sub(t))
 	new.ColumnValues = make(map[string]*v1proto.ColumnValue)
 	for i, v := range values {
 		if i == c.KeyCol {
